@@ -318,6 +318,30 @@ theorem quad_ctrl_on_tangents (arc : Arc K) (a1 a2 : K) (heps : 0 ≤ (Eps.eps :
   · intro h
     simp only [quadCtrl, lineIntersection, sc_abs, h, if_true]
 
+/-- the determinant tested by `Line::intersection` for a quadratic piece:
+`tangent(a2) × tangent(a1) = rx·ry·(cos a2·sin a1 − sin a2·cos a1)` (= `−rx·ry·sin(a2 − a1)`),
+whatever the x-rotation. -/
+theorem tangent_cross_formula (arc : Arc K) (a1 a2 : K)
+    (h : Transc.cos arc.xrot * Transc.cos arc.xrot + Transc.sin arc.xrot * Transc.sin arc.xrot = 1) :
+    (tangentAtAngle arc a2).cross (tangentAtAngle arc a1)
+      = arc.radii.x * arc.radii.y * (Transc.cos a2 * Transc.sin a1 - Transc.sin a2 * Transc.cos a1) := by
+  simp only [tangentAtAngle, Arc.rotate, P.cross]
+  linear_combination (arc.radii.x * arc.radii.y * (Transc.cos a2 * Transc.sin a1 - Transc.sin a2 * Transc.cos a1)) * h
+
+/-- **witness of the absolute-epsilon defect**: once `|rx·ry| ≤ S::EPSILON`, EVERY quadratic piece
+has its control point on its start point (for any step: `|sin(a2 − a1)| ≤ 1`), i.e. the arc is
+approximated by its chords whatever the requested accuracy (finding C13-quad-ctrl-abs-epsilon). -/
+theorem quad_ctrl_tiny_radii_witness (arc : Arc K) (a1 a2 : K)
+    (h : Transc.cos arc.xrot * Transc.cos arc.xrot + Transc.sin arc.xrot * Transc.sin arc.xrot = 1)
+    (hsin : |Transc.cos a2 * Transc.sin a1 - Transc.sin a2 * Transc.cos a1| ≤ 1)
+    (hr : |arc.radii.x * arc.radii.y| ≤ (Eps.eps : K)) (heps : 0 ≤ (Eps.eps : K)) :
+    quadCtrl arc a1 a2 = pointAt arc a1 := by
+  apply (quad_ctrl_on_tangents arc a1 a2 heps).2
+  rw [tangent_cross_formula arc a1 a2 h, abs_mul]
+  calc |arc.radii.x * arc.radii.y| * |Transc.cos a2 * Transc.sin a1 - Transc.sin a2 * Transc.cos a1|
+      ≤ |arc.radii.x * arc.radii.y| * 1 := mul_le_mul_of_nonneg_left hsin (abs_nonneg _)
+    _ ≤ Eps.eps := by rw [mul_one]; exact hr
+
 /-- the cubic control points are on the end tangents by construction -/
 theorem cubic_ctrl_on_tangents (arc : Arc K) (step : K) (j : Nat) :
     ((cubicPiece arc step j).c1 - (cubicPiece arc step j).a).cross (tangentAtAngle arc (angleAt arc step j)) = 0
@@ -835,6 +859,21 @@ example : ∃ arc : Arc ℝ, Transc.pi * 2 < |arc.sweep| ∧ 0 < nQ arc := by
     rw [hn] at this
     have : nQ (⟨⟨0, 0⟩, ⟨1, 1⟩, 0, 3 * Real.pi, 0⟩ : Arc ℝ) = 8 := by exact_mod_cast this
     omega
+
+/-- tiny radii: the hypotheses of `quad_ctrl_tiny_radii_witness` hold for radii (1/20000, 1/20000)
+(with `S::EPSILON = 1e-8`), any angles -/
+example (a1 a2 : ℝ) : quadCtrl (⟨⟨0, 0⟩, ⟨1/20000, 1/20000⟩, 0, 1, 0⟩ : Arc ℝ) a1 a2
+    = pointAt (⟨⟨0, 0⟩, ⟨1/20000, 1/20000⟩, 0, 1, 0⟩ : Arc ℝ) a1 := by
+  apply quad_ctrl_tiny_radii_witness
+  · exact exactTrig_real.cos_sq_add_sin_sq _
+  · show |Real.cos a2 * Real.sin a1 - Real.sin a2 * Real.cos a1| ≤ 1
+    have e : Real.cos a2 * Real.sin a1 - Real.sin a2 * Real.cos a1 = Real.sin (a1 - a2) := by
+      rw [Real.sin_sub]; ring
+    rw [e]; exact Real.abs_sin_le_one _
+  · show |(1 / 20000 : ℝ) * (1 / 20000)| ≤ 1 / 100000000
+    rw [abs_of_pos (by norm_num)]; norm_num
+  · show (0 : ℝ) ≤ 1 / 100000000
+    norm_num
 
 /-- **numeric witness over `ℝ`**: at the diagonal, euclid's `fast_atan2(1, 1)` is more than
 `2·10⁻⁴` rad below `π/4`. -/
